@@ -93,15 +93,17 @@ def lifecycle_of(lcv, k):
     return {"R": "request_scoped", "T": "transient", "M": ["request_scoped", "transient"][k % 2]}[lcv]
 
 
-def build(shape, pat, lcv, late, flav="P", t1_at=None, wrap_at=None, wrap_route_at=None, prefixes=False, sid=None):
-    """-> spec. pat: {bp: number of T0 registrations}."""
+def build(shape, pat, lcv, late, flav="P", t1_at=None, wrap_at=None, wrap_route_at=None, prefixes=False, sid=None, fns=None):
+    """-> spec. pat: {bp: number of T0 registrations}. fns: the constructor functions of the registrations in order
+    (default FNS; `F` is the fallible `-> Result<T0, ErrC>` one)."""
+    fns = fns or FNS
     bps = list(SHAPES[shape])
     regs, reg_ops = {}, {}
     k = 0
     for bp in bps:
         regs[bp], reg_ops[bp] = [], []
         for _ in range(pat[bp]):
-            cid = f"C_T0{flav}__0__{FNS[k]}"
+            cid = f"C_T0{flav}__0__{fns[k]}"
             op = {"k": "ctor", "c": cid, "lc": lifecycle_of(lcv, k)}
             if flav == "K":
                 op["cl"] = "clone_if_necessary"
@@ -156,7 +158,7 @@ def build(shape, pat, lcv, late, flav="P", t1_at=None, wrap_at=None, wrap_route_
                 body.append(n)
         return (body + ctors) if late else (ctors + body)
 
-    cls = "generic" if wrap_at else ("t1" if t1_at else ("lcmix" if len(lcv) > 1 else "plain"))
+    cls = "generic" if wrap_at else ("t1" if t1_at else ("lcmix" if len(lcv) > 1 else ("fallmix" if "F" in fns[:sum(pat.values())] else "plain")))
     two_singletons = len(lcv) > 1 and lcv.count("S") > 1
     meta = {"shape": shape, "pattern": pat, "lc": lcv, "late": late, "flavour": flav, "regs": regs, "routes": routes, "class": cls,
             "t1_at": t1_at, "wrap_at": wrap_at, "wrap_route_at": wrap_route_at,
@@ -327,6 +329,15 @@ def enumerate_specs(tier):
         n = sum(pat.values())
         for lcs in itertools.product("SRT", repeat=n):
             specs.append(build(shape, pat, "".join(lcs), False, "P"))
+    # fallible / infallible mixes: two registrations of T0 where one is fallible (`-> Result<T0, ErrC>`: the value is
+    # yielded by a synthetic Ok-matcher, a different component than the registered callable), twice in one blueprint in
+    # both orders, and parent / child in both orders; routes in every blueprint
+    for shape, pat in [("R", {"R": 2}), ("R>A", {"R": 2, "A": 0}), ("R>A", {"R": 0, "A": 2}), ("R>A", {"R": 1, "A": 1})] + (
+            [("R>A,R>B", {"R": 2, "A": 1, "B": 0}), ("R>A>B", {"R": 0, "A": 2, "B": 0})] if tier == "thorough" else []):
+        n = sum(pat.values())
+        for fns in ([["F", "S"], ["S", "F"], ["F", "A"]] if n == 2 else [["F", "S", "A"], ["S", "F", "A"], ["A", "S", "F"]]):
+            for late in ((False, True) if tier == "thorough" else (False,)):
+                specs.append(build(shape, pat, "R", late, "P", fns=fns))
     specs.extend(gc_specs(tier))
     for i, s in enumerate(specs):
         s["id"] = f"scope{i:05d}"
@@ -397,6 +408,8 @@ def _direct_check(o):
             continue
         by_handler = {r["cid"]: r for r in sc["routes"]}
         for req, resp in zip(script, run["responses"]):
+            if req.get("plan"):
+                continue  # single-fault plans (fallmix members): judged by the shared trace oracle, not here
             events = M.parse_trace(resp.get("trace", []))
             calls = [e for e in events if e["e"] == "call" and e["kind"] == "handler"]
             if len(calls) != 1 or calls[0]["cid"] not in by_handler:
